@@ -704,7 +704,7 @@ Definition skip_value_error {A} (skip : bool) (r : res (option A)) : res (option
   | _ => r
   end.
 
-(* ------------------------------------------------------------------ ValuedRooms: sorted(zip(*d), key=lambda rv: min(rv[0])) *)
+(* ------------------------------------------------------------------ ValuedRooms: the pairs of zip(rooms, values) sorted with key = min(room) *)
 Fixpoint py_min_go (m : pv) (l : list pv) : res pv :=
   match l with
   | [] => Ok m
@@ -1135,8 +1135,10 @@ Definition serialize_problem_as_url (c : comb) (puzzle : str) (h w : Z) (problem
   | Ok body => Ok (prefix ++ puzzle ++ slash ++ py_str_int w ++ slash ++ py_str_int h ++ slash ++ body)
   end.
 
-(* --- _DESERIALIZE_URL_REG.match(url):  https?://[^/]+/p(?:\.html)?\?([^/]+)/(\d+)/(\d+)/(.*)
-   read deterministically (no alternative needs backtracking once the text is split at '/') *)
+(* --- _DESERIALIZE_URL_REG.match(url): "http", optional "s", "://", one or more non-slash
+   characters, "/p", optional ".html", "?", name (non-slash, non-empty), "/", digits, "/",
+   digits, "/", then the rest of the line (dot does not match a newline).  Read
+   deterministically: no alternative needs backtracking once the text is split at slashes. *)
 Fixpoint strip_prefix (p s : str) : option str :=
   match p, s with
   | [], _ => Some s
